@@ -6,6 +6,7 @@ issues it (driver `Scheduler` handle, model `Context`, or a `Scheduler` handle o
 model lets such foreign requests run at every point where the stepping code holds no lock, `Prog.ext`).
 -/
 import NexoVerif.Lemmas.SchedLog
+import NexoVerif.Extracted
 
 namespace NexoVerif.Sched
 set_option linter.unusedSimpArgs false
@@ -66,6 +67,13 @@ have deadlines strictly after the time already written, so they fire at their de
 theorem race_free (prog : Prog) (t : Nat) (s : St) (h : Inv s) :
     Inv (doSync prog t s).1 ∧ (doSync prog t s).1.now = s.now :=
   ⟨(doSync_inv prog t s h).1, (doSync_inv prog t s h).2.1⟩
+
+/-- **requests_and_time_writes_are_atomic_in_the_source** — the atomicity M-SCHED assumes, read from the source on every
+run: each of the five `schedule*_from` functions takes the scheduler-queue lock *before* it reads the time, converts
+and validates the deadline and inserts the action; `step_to_next_bounded` writes the simulation time only while it
+holds that lock and `step_until` has no time write of its own.  (A check-then-act reordering makes this `false`.) -/
+theorem requests_and_time_writes_are_atomic_in_the_source :
+    Extracted.schedValidatesUnderLock = true ∧ Extracted.stepWritesTimeUnderLock = true := by decide
 
 /-! ## non-vacuity -/
 private def req (isAbs : Bool) (dl : Nat) (p : Option Nat) : SchedReq :=
